@@ -130,7 +130,7 @@ func cBin(op string, l, r *cN) *cN {
 	if l.T == ctFloat || r.T == ctFloat {
 		t = ctFloat
 	}
-	if l.T == ctString {
+	if l.T == ctString || r.T == ctString {
 		t = ctString
 	}
 	return &cN{K: "bin", S: op, A: []*cN{l, r}, T: t}
@@ -592,6 +592,15 @@ func c01Shapes() []c01Shape {
 		pt, a = p.pat("word")
 		p.body = []*cN{cCond(pt, cBlock(p.set(t, "=", nil, cBin("+", a, cStr("-x")))), nil)}
 		out = append(out, p.shape("text-concat", false, ""))
+
+		// a string joined with an integer literal, on either side, also as a label
+		p = &c01Prog{}
+		t = p.metric("text t", "t", mtString)
+		u := p.metric("text u", "u", mtString)
+		c = p.metric("counter c by k", "c", mtInt)
+		pt, a = p.pat("word")
+		p.body = []*cN{cCond(pt, cBlock(p.set(t, "=", nil, cBin("+", a, cInt(0))), p.set(u, "=", nil, cBin("+", cInt(0), a)), p.inc(c, cBin("+", a, cInt(1)))), nil)}
+		out = append(out, p.shape("text-concat-int", true, ""))
 	}
 	// F6: builtins and conversions
 	{
